@@ -29,6 +29,7 @@ import (
 	"time"
 
 	NoKV "github.com/feichai0017/NoKV"
+	"github.com/feichai0017/NoKV/kv"
 	"github.com/feichai0017/NoKV/utils"
 	"github.com/feichai0017/NoKV/utils/verifhook"
 
@@ -338,8 +339,8 @@ func (s *Spec) ReadState(h *dbh.H) (st *State) {
 	it := db.NewIterator(&utils.Options{IsAsc: true})
 	for it.Rewind(); it.Valid(); it.Next() {
 		e := it.Item().Entry()
-		if bytes.HasPrefix(e.Key, []byte("!NoKV!")) {
-			continue
+		if bytes.HasPrefix(e.Key, []byte("!NoKV!")) || e.Meta&kv.BitDelete != 0 {
+			continue // internal key / tombstone surfaced by the DB iterator: not "present"
 		}
 		st.Iter = append(st.Iter, IterEnt{CF: int(e.CF), Key: string(e.Key), Ver: e.Version, Val: append([]byte{}, e.Value...)})
 		full[ik{int(e.CF), string(e.Key), e.Version}] = true
@@ -348,8 +349,8 @@ func (s *Spec) ReadState(h *dbh.H) (st *State) {
 	ko := db.NewIterator(&utils.Options{IsAsc: true, OnlyUseKey: true})
 	for ko.Rewind(); ko.Valid(); ko.Next() {
 		e := ko.Item().Entry()
-		if bytes.HasPrefix(e.Key, []byte("!NoKV!")) {
-			continue
+		if bytes.HasPrefix(e.Key, []byte("!NoKV!")) || e.Meta&kv.BitDelete != 0 {
+			continue // internal key / tombstone surfaced by the DB iterator: not "present"
 		}
 		if !full[ik{int(e.CF), string(e.Key), e.Version}] {
 			st.Iter = append(st.Iter, IterEnt{CF: int(e.CF), Key: string(e.Key), Ver: e.Version, Err: "value does not resolve (entry listed by the key-only iterator, skipped by the value iterator)"})
@@ -693,11 +694,13 @@ type Recovered struct {
 
 // Recover materializes img and reopens it with the real Open on the plain OS filesystem.
 func (r *Runner) Recover(img *crashfs.Image) *Recovered {
+	t0 := time.Now()
 	dir := r.freshDir("rec")
 	rec := &Recovered{Dir: dir}
 	if err := img.Materialize(dir); err != nil {
 		panic(err)
 	}
+	t1 := time.Now()
 	cfg := r.dbConfig()
 	cfg.FS = nil
 	h, err := openQuiet(dir, cfg)
@@ -705,12 +708,22 @@ func (r *Runner) Recover(img *crashfs.Image) *Recovered {
 		rec.OpenErr = err.Error()
 		return rec
 	}
+	t2 := time.Now()
 	rec.H = h
 	rec.State = r.Spec.ReadState(h)
+	t3 := time.Now()
+	Timing[0] += t1.Sub(t0)
+	Timing[1] += t2.Sub(t1)
+	Timing[2] += t3.Sub(t2)
 	return rec
 }
 
+// Timing accumulates materialize / open / read / close durations (diagnostics).
+var Timing [4]time.Duration
+
 func (rec *Recovered) Close() {
+	t0 := time.Now()
+	defer func() { Timing[3] += time.Since(t0) }()
 	if rec.H != nil {
 		_ = rec.H.Close()
 		rec.H = nil
